@@ -81,7 +81,7 @@ def check(ctx):
         L = rng.choice([1, 2, 3, 5, 8, 10, 20, 50, 2.5, 1.0, 7.25])
         n = rng.choice([1, 2, 3, 5, 9, 12, 25, 60])
         shape = rng.choice([(), (), (2,), (3,)]) if kind != 'rcov' else rng.choice([(2,), (3,)])
-        fam = rng.choice(['int', 'dyadic', 'tied', 'const', 'mixed', 'narrowint'] + (['nearmax'] if kind == 'rmean' else []))
+        fam = rng.choice(['int', 'dyadic', 'tied', 'const', 'mixed', 'narrowint', 'offset'] + (['nearmax'] if kind == 'rmean' else []))
         if fam == 'const':
             c = rng.randint(-9, 9) / 2
             vals = [c if shape == () else {'arr': (np.ones(shape) * c).tolist(), 'dtype': 'float64'} for _ in range(n)]
@@ -116,6 +116,8 @@ def check(ctx):
         flatvals = [acclib.flat(v)[1] for v in c['values']]
         mx = max([abs(x) for col in flatvals for x in col] + [Fraction(1)])
         scale = mx * mx if c['kind'] != 'rmean' else mx
+        if c['family'] == 'offset':
+            scale = c05.spread_scale(c['kind'], flatvals, scale)
         n = len(c['values'])
         Lint = isinstance(c['L'], int)
         ctx.case((c['kind'], c['L'], c['values'], c['change']),
